@@ -49,7 +49,21 @@ func cpuMillis() int64 {
 	return (ru.Utime.Sec+ru.Stime.Sec)*1000 + int64(ru.Utime.Usec+ru.Stime.Usec)/1000
 }
 
+// maxRSSKB: the high-water mark of THIS process image. getrusage's ru_maxrss is not used: on Linux it is carried
+// across fork+exec, so a fresh worker would start with the resident size its (large) parent had at fork time.
+// VmHWM belongs to the address space created by exec.
 func maxRSSKB() int64 {
+	if b, err := os.ReadFile("/proc/self/status"); err == nil {
+		for _, l := range strings.Split(string(b), "\n") {
+			if strings.HasPrefix(l, "VmHWM:") {
+				var kb int64
+				fmt.Sscanf(strings.TrimSpace(strings.TrimPrefix(l, "VmHWM:")), "%d", &kb)
+				if kb > 0 {
+					return kb
+				}
+			}
+		}
+	}
 	var ru syscall.Rusage
 	syscall.Getrusage(syscall.RUSAGE_SELF, &ru)
 	return ru.Maxrss
